@@ -219,9 +219,46 @@ class _EncodingTwin(TwinLeague):
 
 EncodingTwin = twin_class(_EncodingTwin, "EncodingTwin")
 
+def _svc_recurring(data, cfg):
+    """pairs of rate() jobs on one line-up: outcome as ranks = dense classes / as a drawn encoding of the same weak order"""
+    from vf import service
+
+    jobs = []
+    for t in service.lineups(data, cfg, k=6):
+        classes = data.draw(gen.weak_orders(len(t)))
+        frag, _ = data.draw(gen.encodings(classes, kinds=["scores", "scores_small", "scores_float", "float", "int_relabel", "small_ints", "half_grid"]))
+        jobs.append({"op": "rate", "teams": t, "call": {"ranks": list(classes)}})
+        jobs.append({"op": "rate", "teams": t, "call": dict(frag)})
+    return jobs
+
+
+def _svc_judge(spec, out, ctx):
+    kind = spec["cfg"]["kind"]
+    rec = spec["recurring"]
+    for when in ("first", "last"):
+        for k in range(0, len(rec), 2):
+            a, b = out[when][k], out[when][k + 1]
+            if a != b:
+                raise Violation(f"service:{when}:encodings-differ",
+                                f"{kind}: {'as first calls of the process' if when == 'first' else 'after ' + str(out['fillers']) + ' other calls through the same model'}, "
+                                f"rate with {rec[k]['call']} and with {rec[k + 1]['call']} (the same weak order) differ: {a!r} vs {b!r}"[:1200])
+
+
+def _svc(i):
+    from vf import service
+
+    if not hasattr(_svc, "fns"):
+        _svc.fns = service.make_clause_functions(_svc_recurring, _svc_judge)
+    return _svc.fns[i]
+
+
 PROPERTY = Property(
     pid="C03",
     clauses=[
+        Clause(name="long-running-service", kind="custom", custom=lambda *a: _svc(0)(*a), check=lambda *a: _svc(1)(*a), quick=16, thorough=64, shards_quick=16, shards_thorough=16,
+               rule="one fresh child interpreter and ONE long-lived model per case: 9 recurring line-ups each rated under ranks = dense classes and under a drawn "
+                    "encoding of the same weak order, first; then 9 000 (quick) / 70 000 (thorough) other calls with ever new line-ups and scorelines; then the "
+                    "recurring pairs again: both encodings identical, early and late; non-trivial = at least 4 200 calls in between"),
         Clause(name="encodings-agree", strategy=enc_cases(), check=check_encodings, quick=5000, thorough=100000,
                rule="one game x one weak order x 3-5 drawn encodings (int relabelling, float, mixed int/float/bool/-0.0, bool, huge, zero/negative, scores, "
                     "float scores, omitted) each compared bit for bit with ranks = dense classes; non-trivial = an encoding with a float / bool / |v| > 2^53 "
